@@ -342,6 +342,30 @@ def record_unknown_root(seed):
     return tr
 
 
+def record_sibling_replace(nk, io, inew):
+    """replace_child(old, new) where `new` already is a child of the same parent (a sibling moved over another one): whatever
+    the resulting child list is, a node it still lists stays registered, and what left the tree with deletion is gone."""
+    Node.store.clear()
+    w = World(clear=False)
+    par = Node("p")
+    kids = []
+    for k in range(nk):
+        c = Node("c")                    # (replace_child wants old and new to carry one name)
+        c.add_child(Node("g%d" % k))
+        par.add_child(c)
+        kids.append(c)
+    w.track_tree(par)
+    tr = {"init": slim(w.pi(all_fields())), "events": [], "desc": {"case": "replace_child with a sibling as the new child", "children": nk, "old": io, "new": inew}}
+    try:
+        par.replace_child(kids[io], kids[inew])
+        ok = True
+    except Exception:  # noqa: BLE001
+        ok = False
+    # (the same node may now be listed twice: project the child lists as they are)
+    tr["events"].append({"op": "discarding", "args": [1, "replace_child"], "ok": ok, "ret": 0, "post": slim(w.pi(all_fields()))})
+    return tr
+
+
 def _walk(n):
     yield n
     for c in n.children:
@@ -440,6 +464,8 @@ def run(rep, tier, seed):
     # code -> spec on EML trees
     ntr = 24 if tier == "quick" else 300
     traces = [t for chunk in parallel(w_eml, [seed * 31 + i for i in range(ntr)]) for t in chunk]
+    traces += [record_sibling_replace(nk, io, inew) for nk in (2, 3, 4) for io in range(nk) for inew in range(nk) if io != inew]
+    Node.store.clear()
     rejects, _ = judge_traces(traces, PID, label="eml")
     rep.cov["traces_validated_against_impl"] += len(traces)
     for rj in rejects:
